@@ -18,6 +18,15 @@ Fixpoint nodupb (l : list (list N)) : bool :=
   | x :: r => negb (existsb (list_eqb x) r) && nodupb r
   end.
 
+Fixpoint nodupN (l : list N) : bool :=
+  match l with
+  | [] => true
+  | x :: r => negb (existsb (N.eqb x) r) && nodupN r
+  end.
+
+Definition acts_ok (a : actions) : bool :=
+  forallb (fun p => (fst p <? 65536) && (snd p <? 65536)) a.
+
 Section Wf.
   Variable U : uclass.
   Variable F : font.
@@ -51,7 +60,28 @@ Section Wf.
                 && int16_ok (v_x v) && int16_ok (v_y v) && int16_ok (v_dx v)
     end.
 
-  Definition ctx_wf (c : ctx_sub) : bool := false.
+  (* contextual subtables in the form the parser produces *)
+  Definition ctx_wf (c : ctx_sub) : bool :=
+    match c with
+    | SeqCtx1 cov rules =>
+        negb (is_nil cov) && ascendingb cov && (length cov =? length rules)%nat && gids_ok cov
+        && forallb (fun rs => negb (is_nil rs)
+                              && forallb (fun r => gids_ok (fst r) && acts_ok (snd r)) rs) rules
+    | SeqCtx2 cov classes rules =>
+        ascendingb cov && gids_ok cov
+        && forallb (fun c => negb (is_nil c) && ascendingb c && gids_ok c) classes
+        && nodupN (concat classes)
+        && (length rules =? S (length classes))%nat
+        && forallb (forallb (fun r => forallb (fun c => c <=? N.of_nat (length classes)) (fst r)
+                                      && acts_ok (snd r))) rules
+        && negb (is_nil (concat rules))
+    | SeqCtx3 input acts =>
+        negb (is_nil input) && forallb (fun s => ascendingb s && gids_ok s) input && acts_ok acts
+    end.
+
+  (* no glyph is called "class" (the word starts a class definition in GSUB5) *)
+  Definition no_class_names : bool :=
+    forallb (fun n => negb (list_eqb n K.k_class)) (f_names F).
 
   (* subtables in the form the parser produces (what the language can express) *)
   Definition sub_wf (s : subtable) : bool :=
@@ -91,6 +121,7 @@ Section Wf.
     | Gsub4_1 _ _ => 4
     | Gpos1_1 _ _ | Gpos1_2 _ _ => 1
     end.
+  Definition is_ctx (s : subtable) : bool := match s with Ctx _ => true | _ => false end.
   Definition is_gpos (s : subtable) : bool :=
     match s with Gpos1_1 _ _ | Gpos1_2 _ _ => true | _ => false end.
 
@@ -98,9 +129,16 @@ Section Wf.
   Definition gsub_lookup_wf (lk : lookup) : bool :=
     flags_ok (l_flags lk) &&
     match l_subs lk with
-    | [s] => negb (is_gpos s) && (sub_type s =? l_type lk) && sub_wf s
+    | [s] => negb (is_gpos s) && negb (is_ctx s) && (sub_type s =? l_type lk) && sub_wf s
     | _ => false
     end.
+  (* GSUB5: one or more contextual subtables *)
+  Definition ctx_lookup_wf (lk : lookup) : bool :=
+    flags_ok (l_flags lk) && (l_type lk =? 5) && negb (is_nil (l_subs lk))
+    && forallb (fun s => match s with Ctx c => ctx_wf c | _ => false end) (l_subs lk).
+  (* GSUB1-5 *)
+  Definition gsub_lookup_wf5 (lk : lookup) : bool := gsub_lookup_wf lk || ctx_lookup_wf lk.
+
   (* GPOS1: one or more subtables *)
   Definition gpos_lookup_wf (lk : lookup) : bool :=
     flags_ok (l_flags lk) && (l_type lk =? 1) && negb (is_nil (l_subs lk))
